@@ -457,7 +457,8 @@ def feedLoop : Nat → Option Kind → Bytes → List Msg × Feed
       let (ms, f) := feedLoop fuel p' rest
       (m :: ms, f)
     | .needMore p' rest => ([], { payload := p', buf := rest })
-    | .err e => ([], { payload := p, buf := buf, dead := some e })
+    -- READ_DISCONNECT: the slot and the buffer are never looked at again (canonical dead state)
+    | .err e => ([], { payload := none, buf := [], dead := some e })
 
 /-- one read of `seg` bytes followed by `poll_request` -/
 def feed (f : Feed) (seg : Bytes) : List Msg × Feed :=
